@@ -53,6 +53,23 @@ def _is_simple(e):
     return False
 
 
+def _pure_number(e, depth=0):
+    """a number written out: constants, arithmetic, np.* / math.* functions and constants of such"""
+    if depth > 6:
+        return False
+    if isinstance(e, ast.Constant):
+        return isinstance(e.value, (int, float)) and not isinstance(e.value, bool)
+    if isinstance(e, ast.UnaryOp) and isinstance(e.op, (ast.USub, ast.UAdd)):
+        return _pure_number(e.operand, depth + 1)
+    if isinstance(e, ast.BinOp) and isinstance(e.op, (ast.Add, ast.Sub, ast.Mult, ast.Div, ast.Pow)):
+        return _pure_number(e.left, depth + 1) and _pure_number(e.right, depth + 1)
+    if isinstance(e, ast.Attribute) and isinstance(e.value, ast.Name) and e.value.id in ("np", "math", "numpy") and e.attr in ("pi", "e", "inf"):
+        return True
+    if isinstance(e, ast.Call) and isinstance(e.func, ast.Attribute) and isinstance(e.func.value, ast.Name) and e.func.value.id in ("np", "math", "numpy") and e.func.attr in ("log", "sqrt", "exp", "log2", "log10", "log1p", "tanh", "cos", "sin", "float64", "float32") and not e.keywords:
+        return all(_pure_number(a, depth + 1) for a in e.args)
+    return False
+
+
 def _callable_chain(e):
     """a conditional expression (possibly a chain) all of whose alternatives are references to functions /
     bound super() methods"""
@@ -1273,6 +1290,102 @@ def _inline_procedures(cls, module_classes):
             m.body = rewrite(m.body)
 
 
+def _eliminate_memos(tree):
+    """A memo table is transparent to what a function computes:
+
+        v = T.get(key)                      if key not in T:
+        if v is None:                           T[key] = E
+            v = E                           return T[key]          (or T[key].clone(), uses of T[key] ..)
+            T[key] = v
+        return v
+
+    with T a module-level / class-level dict filled nowhere else.  Every analysis of *values* reads the function
+    as `v = E` / `T__entry = E`; whether the table may be shared (its key, what happens to the entries) is decided
+    on the source as written, by SHARED-STATE."""
+    tables = {}
+    for st in tree.body:
+        if isinstance(st, ast.Assign) and len(st.targets) == 1 and isinstance(st.targets[0], ast.Name) and _empty_dict(st.value):
+            tables[(None, st.targets[0].id)] = st
+        if isinstance(st, ast.ClassDef):
+            for c in st.body:
+                if isinstance(c, ast.Assign) and len(c.targets) == 1 and isinstance(c.targets[0], ast.Name) and _empty_dict(c.value):
+                    tables[(st.name, c.targets[0].id)] = c
+    if not tables:
+        return
+
+    def table_of(e, cls):
+        if isinstance(e, ast.Name) and (None, e.id) in tables:
+            return (None, e.id)
+        if isinstance(e, ast.Attribute) and isinstance(e.value, ast.Name) and e.value.id in ("cls", "self", cls or "") and (cls, e.attr) in tables:
+            return (cls, e.attr)
+        return None
+
+    def stores_elsewhere(tk, fn):
+        for n in ast.walk(tree):
+            if isinstance(n, ast.FunctionDef) and n is not fn:
+                owner = next((c.name for c in tree.body if isinstance(c, ast.ClassDef) and any(x is n for x in ast.walk(c))), None)
+                for x in ast.walk(n):
+                    if isinstance(x, ast.Subscript) and isinstance(x.ctx, (ast.Store, ast.Del)) and table_of(x.value, owner) == tk:
+                        return True
+                    if isinstance(x, ast.Call) and isinstance(x.func, ast.Attribute) and x.func.attr in ("update", "setdefault", "pop", "clear", "popitem") and table_of(x.func.value, owner) == tk:
+                        return True
+        return False
+
+    def rewrite(fn, cls):
+        body = fn.body
+        i = 0
+        while i < len(body):
+            st = body[i]
+            # form A
+            if isinstance(st, ast.Assign) and len(st.targets) == 1 and isinstance(st.targets[0], ast.Name) and isinstance(st.value, ast.Call) and isinstance(st.value.func, ast.Attribute) and st.value.func.attr == "get" and len(st.value.args) == 1 and i + 1 < len(body):
+                tk = table_of(st.value.func.value, cls)
+                v = st.targets[0].id
+                nx = body[i + 1]
+                if tk is not None and isinstance(nx, ast.If) and not nx.orelse and isinstance(nx.test, ast.Compare) and len(nx.test.ops) == 1 and isinstance(nx.test.ops[0], ast.Is) and isinstance(nx.test.left, ast.Name) and nx.test.left.id == v and isinstance(nx.test.comparators[0], ast.Constant) and nx.test.comparators[0].value is None:
+                    keep = []
+                    stored = False
+                    for b in nx.body:
+                        if isinstance(b, ast.Assign) and len(b.targets) == 1 and isinstance(b.targets[0], ast.Subscript) and table_of(b.targets[0].value, cls) == tk and isinstance(b.value, ast.Name) and b.value.id == v and norm_dump(b.targets[0].slice) == norm_dump(st.value.args[0]):
+                            stored = True
+                        else:
+                            keep.append(b)
+                    if stored and keep and not stores_elsewhere(tk, fn):
+                        body[i : i + 2] = keep
+                        i += len(keep)
+                        continue
+            # form B
+            if isinstance(st, ast.If) and not st.orelse and isinstance(st.test, ast.Compare) and len(st.test.ops) == 1 and isinstance(st.test.ops[0], ast.NotIn) and len(st.body) == 1:
+                tk = table_of(st.test.comparators[0], cls)
+                b = st.body[0]
+                if tk is not None and isinstance(b, ast.Assign) and len(b.targets) == 1 and isinstance(b.targets[0], ast.Subscript) and table_of(b.targets[0].value, cls) == tk and norm_dump(b.targets[0].slice) == norm_dump(st.test.left) and not stores_elsewhere(tk, fn):
+                    entry = "%s__entry" % tk[1].strip("_")
+                    keytext = norm_dump(st.test.left)
+                    body[i] = ast.copy_location(ast.Assign(targets=[ast.Name(id=entry, ctx=ast.Store())], value=b.value), st)
+
+                    class R(ast.NodeTransformer):
+                        def visit_Subscript(self, n):
+                            self.generic_visit(n)
+                            if isinstance(n.ctx, ast.Load) and table_of(n.value, cls) == tk and norm_dump(n.slice) == keytext:
+                                return ast.copy_location(ast.Name(id=entry, ctx=ast.Load()), n)
+                            return n
+
+                    for j in range(i + 1, len(body)):
+                        body[j] = R().visit(body[j])
+            i += 1
+
+    for st in tree.body:
+        if isinstance(st, ast.FunctionDef):
+            rewrite(st, None)
+        elif isinstance(st, ast.ClassDef):
+            for m in st.body:
+                if isinstance(m, ast.FunctionDef):
+                    rewrite(m, st.name)
+
+
+def _empty_dict(v):
+    return (isinstance(v, ast.Dict) and not v.keys) or (isinstance(v, ast.Call) and isinstance(v.func, ast.Name) and v.func.id in ("dict", "OrderedDict") and not v.args and not v.keywords)
+
+
 class Desugar:
     def __init__(self):
         self.opnames = set()
@@ -1287,6 +1400,10 @@ class Desugar:
             tree = _eliminate_namedtuples(tree)
         except Exception:
             pass  # leave the module as written: the engines will say "undecided" where they cannot follow
+        try:
+            _eliminate_memos(tree)
+        except Exception:
+            pass
         self._module_classes = [c for c in ast.walk(tree) if isinstance(c, ast.ClassDef)]
         self._module_tables = _literal_tables(tree.body, _names_stored_toplevel(tree.body))
         tree.body = self.block(tree.body, None, None)
@@ -1303,6 +1420,13 @@ class Desugar:
             if isinstance(st, ast.Assign) and len(st.targets) == 1 and isinstance(st.targets[0], ast.Name):
                 v = st.value
                 if isinstance(v, (ast.Tuple, ast.List)) and v.elts and all(isinstance(e, ast.Constant) or (isinstance(e, ast.UnaryOp) and isinstance(e.op, (ast.USub, ast.UAdd)) and isinstance(e.operand, ast.Constant)) for e in v.elts):
+                    consts[st.targets[0].id] = v
+                elif isinstance(v, (ast.Set,)) and v.elts and all(isinstance(e, ast.Constant) for e in v.elts):
+                    consts[st.targets[0].id] = ast.copy_location(ast.Tuple(elts=list(v.elts), ctx=ast.Load()), v)  # used for membership
+                elif isinstance(v, ast.Call) and isinstance(v.func, ast.Name) and v.func.id in ("frozenset", "set", "tuple") and len(v.args) == 1 and isinstance(v.args[0], (ast.Set, ast.List, ast.Tuple)) and v.args[0].elts and all(isinstance(e, ast.Constant) for e in v.args[0].elts):
+                    consts[st.targets[0].id] = ast.copy_location(ast.Tuple(elts=list(v.args[0].elts), ctx=ast.Load()), v)
+                elif _pure_number(v):
+                    # a class-level numeric constant written as a formula: _LOG_TWO_PI = np.log(2 * np.pi)
                     consts[st.targets[0].id] = v
         for k in list(consts):
             if k in assigned_on_self or not k.isupper() and not k.startswith("_"):
